@@ -525,3 +525,445 @@ Proof.
   - vm_compute. reflexivity.
   - cbn [hlines]. unfold ex_lines. intros E. inversion E.
 Qed.
+
+(* ------------------------------------------------------------------ *)
+(* DiffContent: several hunks                                           *)
+
+(* a hunk in the form the decoder produces: header line printed from [hh],
+   ranges as HunkHeader::old_line_range computes them *)
+Definition mk_hunk (p : hheader * list modif) : hunk :=
+  mkHunk (encode_header (fst p)) (snd p)
+    (fst (decoded_ranges (fst p))) (snd (decoded_ranges (fst p))).
+
+Definition total_adds (ps : list (hheader * list modif)) : N :=
+  fold_right N.add 0 (map (fun h => count_adds (hlines h)) (map mk_hunk ps)).
+Definition total_dels (ps : list (hheader * list modif)) : N :=
+  fold_right N.add 0 (map (fun h => count_dels (hlines h)) (map mk_hunk ps)).
+
+Lemma decode_hunk_nil : decode_hunk [] = Err EEof.
+Proof. reflexivity. Qed.
+
+Lemma encode_hunk_length h : (1 <= length (encode_hunk h))%nat.
+Proof. unfold encode_hunk. rewrite !app_length. cbn [length]. lia. Qed.
+
+Lemma flat_map_hunks_length (ps : list (hheader * list modif)) :
+  (length ps <= length (flat_map (fun p => encode_hunk (mk_hunk p)) ps))%nat.
+Proof.
+  induction ps as [|p ps IH]; cbn [flat_map length]; [lia|].
+  rewrite app_length. pose proof (encode_hunk_length (mk_hunk p)). lia.
+Qed.
+
+Lemma content_loop_encode : forall ps fuel acc,
+  (length ps < fuel)%nat ->
+  Forall (fun p => hunk_wf (fst p) (snd p)) ps ->
+  content_loop fuel acc (flat_map (fun p => encode_hunk (mk_hunk p)) ps) =
+  Ok (rev acc ++ map mk_hunk ps).
+Proof.
+  induction ps as [|p ps IH]; intros fuel acc Hf Hwf.
+  - destruct fuel; [cbn in Hf; lia|].
+    cbn [flat_map content_loop map]. rewrite decode_hunk_nil, app_nil_r. reflexivity.
+  - destruct fuel; [cbn in Hf; lia|].
+    inversion Hwf as [|? ? Hp Hps]; subst.
+    cbn [flat_map content_loop]. unfold mk_hunk at 1.
+    rewrite hunk_roundtrip by exact Hp.
+    cbn [length] in Hf. rewrite IH by (assumption || lia).
+    cbn [rev map]. rewrite <- app_assoc. reflexivity.
+Qed.
+
+Theorem content_roundtrip ps :
+  Forall (fun p => hunk_wf (fst p) (snd p)) ps ->
+  decode_content (flat_map (fun p => encode_hunk (mk_hunk p)) ps) =
+  Ok (match ps with
+      | [] => CEmpty
+      | _ => CPlain (map mk_hunk ps) (total_adds ps) (total_dels ps)
+      end).
+Proof.
+  intros Hwf. unfold decode_content.
+  rewrite content_loop_encode; [| pose proof (flat_map_hunks_length ps); lia | exact Hwf].
+  cbn [rev app bind]. destruct ps; reflexivity.
+Qed.
+
+(* ------------------------------------------------------------------ *)
+(* the loops never run out of fuel (every iteration consumes input)      *)
+
+Lemma decode_modif_consumes input m rest :
+  decode_modif input = Ok (m, rest) -> (length rest < length input)%nat.
+Proof.
+  unfold decode_modif. pose proof (read_line_length input) as HL.
+  destruct (fst (read_line input)) as [|c l] eqn:E; [discriminate|].
+  cbn [length] in HL.
+  destruct (c =? 43); [intros [= <- <-]; lia|].
+  destruct (c =? 45); [intros [= <- <-]; lia|].
+  destruct (c =? 32); [intros [= <- <-]; lia | discriminate].
+Qed.
+
+Lemma decode_modif_shape input :
+  (exists m rest, decode_modif input = Ok (m, rest)) \/ (exists e, decode_modif input = Err e).
+Proof.
+  unfold decode_modif. destruct (fst (read_line input)) as [|c l]; [right; eauto|].
+  destruct (c =? 43); [left; eauto|].
+  destruct (c =? 45); [left; eauto|].
+  destruct (c =? 32); [left; eauto | right; eauto].
+Qed.
+
+Lemma hunk_loop_fuel : forall fuel h o n acc input,
+  (length input < fuel)%nat ->
+  hunk_loop fuel h o n acc input <> OutOfFuel /\
+  (forall ls rest, hunk_loop fuel h o n acc input = Ok (ls, rest) ->
+                   (length rest <= length input)%nat).
+Proof.
+  induction fuel as [|fuel IH]; intros h o n acc input Hf; [lia|].
+  cbn [hunk_loop].
+  destruct ((o <? old_sz h) || (n <? new_sz h)).
+  2:{ split; [discriminate | intros ls rest [= _ <-]; lia]. }
+  destruct (old_sz h <? o); [split; [discriminate | discriminate]|].
+  destruct (new_sz h <? n); [split; [discriminate | discriminate]|].
+  destruct (decode_modif_shape input) as [(m & rest & E)|(e & E)]; rewrite E.
+  - pose proof (decode_modif_consumes _ _ _ E) as HL.
+    assert (Hf' : (length rest < fuel)%nat) by lia.
+    destruct m as [l k|l k|l ko kn].
+    + destruct (add_u32 1 (new_no h) n) as [k'| | |] eqn:EA; cbn [bind];
+        try (split; [discriminate | discriminate]).
+      * destruct (IH h o (n + 1) (MAdd l k' :: acc) rest Hf') as [H1 H2].
+        split; [exact H1 | intros ls r Hr; specialize (H2 _ _ Hr); lia].
+      * unfold add_u32 in EA. destruct (_ <=? _); discriminate.
+    + destruct (add_u32 1 (old_no h) o) as [k'| | |] eqn:EA; cbn [bind];
+        try (split; [discriminate | discriminate]).
+      * destruct (IH h (o + 1) n (MDel l k' :: acc) rest Hf') as [H1 H2].
+        split; [exact H1 | intros ls r Hr; specialize (H2 _ _ Hr); lia].
+      * unfold add_u32 in EA. destruct (_ <=? _); discriminate.
+    + destruct (add_u32 1 (old_no h) o) as [k1| | |] eqn:EA; cbn [bind];
+        try (split; [discriminate | discriminate]).
+      * destruct (add_u32 1 (new_no h) n) as [k2| | |] eqn:EB; cbn [bind];
+          try (split; [discriminate | discriminate]).
+        -- destruct (IH h (o + 1) (n + 1) (MCtx l k1 k2 :: acc) rest Hf') as [H1 H2].
+           split; [exact H1 | intros ls r Hr; specialize (H2 _ _ Hr); lia].
+        -- unfold add_u32 in EB. destruct (_ <=? _); discriminate.
+      * unfold add_u32 in EA. destruct (_ <=? _); discriminate.
+  - destruct e; split; discriminate.
+Qed.
+
+Lemma decode_header_line_rest keep line rest h r :
+  decode_header_line keep line rest = Ok (h, r) -> r = rest.
+Proof.
+  unfold decode_header_line.
+  repeat match goal with
+         | |- context [match ?x with _ => _ end] => destruct x
+         end; try discriminate.
+  all: intros [= _ <-]; reflexivity.
+Qed.
+
+Lemma decode_header_shape keep input :
+  (exists h rest, decode_header_gen keep input = Ok (h, rest) /\ (length rest < length input)%nat)
+  \/ (exists e, decode_header_gen keep input = Err e).
+Proof.
+  unfold decode_header_gen. pose proof (read_line_length input) as HL.
+  destruct (fst (read_line input)) as [|c l] eqn:E; [right; eauto|].
+  cbn [length] in HL.
+  destruct (decode_header_line keep (c :: l) (snd (read_line input))) as [[h r]|e|p|] eqn:ED.
+  - left. apply decode_header_line_rest in ED as ->. exists h, (snd (read_line input)). split; [reflexivity | lia].
+  - right. eauto.
+  - exfalso. revert ED. unfold decode_header_line.
+    repeat match goal with
+           | |- context [match ?x with _ => _ end] => destruct x
+           end; discriminate.
+  - exfalso. revert ED. unfold decode_header_line.
+    repeat match goal with
+           | |- context [match ?x with _ => _ end] => destruct x
+           end; discriminate.
+Qed.
+
+Lemma line_range_shape no sz : (exists r, line_range no sz = Ok r) \/ line_range no sz = Panic 1.
+Proof.
+  unfold line_range, add_u32.
+  destruct (no + sz <=? U32_MAX); cbn [bind]; [|right; reflexivity].
+  destruct (no + sz + 1 <=? U32_MAX); cbn [bind]; [left; eauto | right; reflexivity].
+Qed.
+
+Theorem decode_hunk_fuel keep input :
+  decode_hunk_gen keep input <> OutOfFuel /\
+  (forall h rest, decode_hunk_gen keep input = Ok (h, rest) -> (length rest < length input)%nat).
+Proof.
+  unfold decode_hunk_gen.
+  destruct (decode_header_shape keep input) as [(hh & r & E & HL)|(e & E)]; rewrite E; cbn [bind fst snd].
+  2:{ split; discriminate. }
+  destruct (hunk_loop_fuel (S (length r)) hh 0 0 [] r (Nat.lt_succ_diag_r _)) as [H1 H2].
+  destruct (hunk_loop (S (length r)) hh 0 0 [] r) as [[ls r']|e|p|] eqn:EL; cbn [bind fst snd];
+    try (split; discriminate); [|exfalso; apply H1; reflexivity].
+  specialize (H2 _ _ eq_refl).
+  destruct (line_range_shape (old_no hh) (old_sz hh)) as [[ro ->]| ->]; cbn [bind]; [|split; discriminate].
+  destruct (line_range_shape (new_no hh) (new_sz hh)) as [[rn ->]| ->]; cbn [bind]; [|split; discriminate].
+  split; [discriminate|]. intros h rest [= _ <-]. lia.
+Qed.
+
+Lemma content_loop_fuel : forall fuel acc input,
+  (length input < fuel)%nat -> content_loop fuel acc input <> OutOfFuel.
+Proof.
+  induction fuel as [|fuel IH]; intros acc input Hf; [lia|].
+  cbn [content_loop]. destruct (decode_hunk_fuel false input) as [H1 H2].
+  fold decode_hunk in H1, H2.
+  destruct (decode_hunk input) as [[h rest]|e|p|]; try discriminate.
+  - apply IH. specialize (H2 _ _ eq_refl). lia.
+  - destruct e; discriminate.
+  - exfalso; apply H1; reflexivity.
+Qed.
+
+Theorem decode_content_fuel input : decode_content input <> OutOfFuel.
+Proof.
+  unfold decode_content.
+  pose proof (content_loop_fuel (S (length input)) [] input (Nat.lt_succ_diag_r _)) as H.
+  destruct (content_loop _ _ _) as [hs|e|p|]; cbn [bind]; try discriminate.
+  - destruct hs; discriminate.
+  - exfalso; apply H; reflexivity.
+Qed.
+
+(* ------------------------------------------------------------------ *)
+(* whole diffs — PARTIAL.                                               *)
+(* `Diff::decode` is libgit2's patch parser (git2::Diff::from_buffer)    *)
+(* followed by radicle-surf's conversion.  Neither is modelled: they are *)
+(* an oracle in two pieces, a file-header parser and a hunk parser, with *)
+(* the hypotheses (1) the header parser reads back the headers           *)
+(* FileHeader::encode prints for the header class [good_header], and     *)
+(* (2) the hunk parser agrees with the Gallina hunk decoder wherever     *)
+(* that succeeds.  What is proved is that, given (1) and (2), the hunk   *)
+(* codec composes to a whole-diff round trip.  The file-header grammar   *)
+(* (paths, quoting, modes, renames) is NOT proved; (1) and (2) are       *)
+(* exercised by the harness on every run.                                *)
+
+Definition hunk_core (p : hheader * list modif) : bytes * list modif :=
+  (encode_header (fst p), snd p).
+
+Definition content_of (ps : list (hheader * list modif)) : content :=
+  CPlain (map mk_hunk ps) (total_adds ps) (total_dels ps).
+
+Lemma encode_fheader_starts f text :
+  encode_fheader f = Ok text -> exists t, text = s_diff_git ++ t.
+Proof.
+  destruct f; cbn [encode_fheader]; try discriminate; intros [= <-];
+    unfold ln; rewrite <- !app_assoc; eexists; reflexivity.
+Qed.
+
+Lemma encode_fheader_ok f : f <> FCopied -> exists text, encode_fheader f = Ok text.
+Proof. destruct f; cbn [encode_fheader]; eauto. intros H; exfalso; apply H; reflexivity. Qed.
+
+Lemma strip_hunk_prefix_diff_git t : strip_prefix AT_AT_MINUS (s_diff_git ++ t) = None.
+Proof. reflexivity. Qed.
+
+Section WholeDiff.
+  Variable good_header : fheader -> Prop.
+  Variable git_header : bytes -> option (fheader * bytes).
+  Variable git_hunk : bytes -> option ((bytes * list modif) * bytes).
+
+  (* what may follow a file header / a hunk in an encoded diff *)
+  Definition follows_ok (rest : bytes) : Prop :=
+    rest = [] \/ (exists t, rest = AT_AT_MINUS ++ t) \/ (exists t, rest = s_diff_git ++ t).
+
+  Hypothesis good_header_not_copied : forall f, good_header f -> f <> FCopied.
+  Hypothesis git_header_spec : forall f text rest,
+    good_header f -> encode_fheader f = Ok text -> follows_ok rest ->
+    git_header (text ++ rest) = Some (f, rest).
+  Hypothesis git_hunk_spec : forall input h rest,
+    decode_hunk input = Ok (h, rest) -> git_hunk input = Some ((hline h, hlines h), rest).
+
+  (* the structure of the whole-diff parser: per file a header, then hunks for
+     as long as the next line starts one *)
+  Fixpoint git_hunks (fuel : nat) (input : bytes) : option (list (bytes * list modif) * bytes) :=
+    match strip_prefix AT_AT_MINUS input with
+    | None => Some ([], input)
+    | Some _ =>
+        match fuel with
+        | O => None
+        | S f =>
+            match git_hunk input with
+            | None => None
+            | Some (h, rest) =>
+                match git_hunks f rest with
+                | None => None
+                | Some (hs, r) => Some (h :: hs, r)
+                end
+            end
+        end
+    end.
+
+  Fixpoint git_files (fuel : nat) (input : bytes)
+    : option (list (fheader * list (bytes * list modif))) :=
+    match input with
+    | [] => Some []
+    | _ :: _ =>
+        match fuel with
+        | O => None
+        | S f =>
+            match git_header input with
+            | None => None
+            | Some (fh, rest) =>
+                match git_hunks (length rest) rest with
+                | None => None
+                | Some (hs, rest') =>
+                    match git_files f rest' with
+                    | None => None
+                    | Some fs => Some ((fh, hs) :: fs)
+                    end
+                end
+            end
+        end
+    end.
+
+  Definition git_decode (input : bytes) := git_files (length input) input.
+
+  Definition file_ok (f : fheader * list (hheader * list modif)) : Prop :=
+    good_header (fst f) /\ Forall (fun p => hunk_wf (fst p) (snd p)) (snd f).
+
+  Definition hunks_text (ps : list (hheader * list modif)) : bytes :=
+    flat_map (fun p => encode_hunk (mk_hunk p)) ps.
+
+  Lemma encode_hunk_starts p : hunk_wf (fst p) (snd p) ->
+    exists t, encode_hunk (mk_hunk p) = AT_AT_MINUS ++ t.
+  Proof.
+    intros [Hh _ _ _ _ _ _]. destruct Hh as (_ & _ & _ & _ & Ht).
+    unfold mk_hunk. rewrite encode_hunk_header by exact Ht.
+    unfold encode_header. repeat rewrite <- app_assoc. eauto.
+  Qed.
+
+  Lemma git_hunks_encode : forall ps fuel rest,
+    (length ps <= fuel)%nat ->
+    Forall (fun p => hunk_wf (fst p) (snd p)) ps ->
+    strip_prefix AT_AT_MINUS rest = None ->
+    git_hunks fuel (hunks_text ps ++ rest) = Some (map hunk_core ps, rest).
+  Proof.
+    induction ps as [|p ps IH]; intros fuel rest Hf Hwf Hrest.
+    - cbn [hunks_text flat_map app map]. destruct fuel; cbn [git_hunks]; rewrite Hrest; reflexivity.
+    - inversion Hwf as [|? ? Hp Hps]; subst.
+      destruct fuel as [|fuel]; [cbn in Hf; lia|].
+      unfold hunks_text. cbn [flat_map]. rewrite <- app_assoc.
+      cbn [git_hunks].
+      destruct (encode_hunk_starts p Hp) as [t Et].
+      rewrite Et at 1. rewrite <- app_assoc, strip_prefix_app.
+      unfold mk_hunk at 1.
+      rewrite (git_hunk_spec _ _ _ (hunk_roundtrip _ _ _ _ _ Hp)).
+      cbn [hline hlines]. fold (hunks_text ps).
+      cbn [length] in Hf. rewrite IH by (assumption || lia).
+      reflexivity.
+  Qed.
+
+  Definition model_file (f : fheader * list (hheader * list modif)) : fheader * content :=
+    (fst f, content_of (snd f)).
+
+  Lemma encode_file_text f : file_ok f ->
+    exists htext, encode_fheader (fst f) = Ok htext /\
+                  encode_file (model_file f) = Ok (htext ++ hunks_text (snd f)).
+  Proof.
+    intros [Hg _]. destruct (encode_fheader_ok _ (good_header_not_copied _ Hg)) as [ht Eh].
+    exists ht. split; [exact Eh|].
+    unfold encode_file, model_file. cbn [fst snd]. rewrite Eh. cbn [bind content_of encode_content].
+    unfold hunks_text. rewrite flat_map_concat_map, map_map, <- flat_map_concat_map. reflexivity.
+  Qed.
+
+  Lemma hunks_text_follows ps rest :
+    Forall (fun p => hunk_wf (fst p) (snd p)) ps -> follows_ok rest -> follows_ok (hunks_text ps ++ rest).
+  Proof.
+    intros Hwf Hr. destruct ps as [|p ps]; [exact Hr|].
+    inversion Hwf as [|? ? Hp _]; subst.
+    destruct (encode_hunk_starts p Hp) as [t Et].
+    right; left. unfold hunks_text. cbn [flat_map]. rewrite Et. repeat rewrite <- app_assoc. eauto.
+  Qed.
+
+  Lemma encode_diff_text : forall d,
+    Forall file_ok d ->
+    exists text, encode_diff (map model_file d) = Ok text /\
+      (text = [] \/ exists t, text = s_diff_git ++ t) /\
+      forall fuel, (length d <= fuel)%nat ->
+        git_files fuel text = Some (map (fun f => (fst f, map hunk_core (snd f))) d).
+  Proof.
+    induction d as [|f d IH]; intros Hd.
+    - exists []. split; [reflexivity|]. split; [left; reflexivity|].
+      intros fuel _. destruct fuel; reflexivity.
+    - inversion Hd as [|? ? Hf Hd']; subst.
+      destruct (IH Hd') as (tl & Etl & Hstart & Hdec).
+      destruct (encode_file_text f Hf) as (ht & Eh & Ef).
+      exists ((ht ++ hunks_text (snd f)) ++ tl).
+      cbn [map encode_diff]. rewrite Ef, Etl. cbn [bind].
+      split; [reflexivity|].
+      destruct (encode_fheader_starts _ _ Eh) as [t0 Et0].
+      split.
+      { right. rewrite Et0. repeat rewrite <- app_assoc. eauto. }
+      intros fuel Hfuel. destruct fuel as [|fuel]; [cbn in Hfuel; lia|].
+      assert (Htl : follows_ok tl).
+      { destruct Hstart as [->|[t ->]]; [left; reflexivity | right; right; eauto]. }
+      assert (Hstop : strip_prefix AT_AT_MINUS tl = None).
+      { destruct Hstart as [->|[t ->]]; reflexivity. }
+      rewrite <- app_assoc.
+      destruct Hf as [Hg Hwf].
+      assert (Hnonempty : exists c s, ht ++ hunks_text (snd f) ++ tl = c :: s).
+      { rewrite Et0. cbn. eauto. }
+      destruct Hnonempty as (c & s & Ecs).
+      cbn [git_files]. rewrite Ecs, <- Ecs.
+      rewrite (git_header_spec _ _ _ Hg Eh) by (apply hunks_text_follows; assumption).
+      rewrite git_hunks_encode; [| | exact Hwf | exact Hstop].
+      2:{ rewrite app_length. unfold hunks_text.
+          pose proof (flat_map_hunks_length (snd f)). lia. }
+      cbn [length] in Hfuel. rewrite Hdec by lia. reflexivity.
+  Qed.
+
+  Theorem diff_roundtrip_partial : forall d,
+    Forall file_ok d ->
+    exists text, encode_diff (map model_file d) = Ok text /\
+      git_decode text = Some (map (fun f => (fst f, map hunk_core (snd f))) d).
+  Proof.
+    intros d Hd. destruct (encode_diff_text d Hd) as (text & Et & Hs & Hdec).
+    exists text. split; [exact Et|]. unfold git_decode. apply Hdec.
+    (* every file contributes at least one byte *)
+    clear Hdec Hs. revert text Et. induction Hd as [|f d Hf Hd IH]; intros text Et.
+    - cbn; lia.
+    - cbn [map encode_diff] in Et.
+      destruct (encode_file_text f Hf) as (ht & Eh & Ef). rewrite Ef in Et. cbn [bind] in Et.
+      destruct (encode_diff (map model_file d)) as [tl| | |] eqn:Etl; cbn [bind] in Et; try discriminate.
+      injection Et as <-. specialize (IH _ eq_refl).
+      destruct (encode_fheader_starts _ _ Eh) as [t0 ->].
+      rewrite !app_length. cbn [length s_diff_git]. lia.
+  Qed.
+End WholeDiff.
+
+(* The three hypotheses of the Section are jointly satisfiable with a
+   non-empty header class: an oracle that recognises one printed header and
+   uses the Gallina hunk decoder. (This shows consistency only; that libgit2
+   and radicle-surf satisfy them is what the harness checks.) *)
+Definition ex_fheader : fheader :=
+  FModified [97; 46; 116; 120; 116] [52; 99; 98; 50; 57; 101; 97] [97; 99; 52; 50; 51; 49; 97] 33188 33188.
+
+Definition ex_good (f : fheader) : Prop := f = ex_fheader.
+Definition ex_git_header (input : bytes) : option (fheader * bytes) :=
+  match encode_fheader ex_fheader with
+  | Ok t => match strip_prefix t input with Some rest => Some (ex_fheader, rest) | None => None end
+  | _ => None
+  end.
+Definition ex_git_hunk (input : bytes) : option ((bytes * list modif) * bytes) :=
+  match decode_hunk input with
+  | Ok (h, rest) => Some ((hline h, hlines h), rest)
+  | _ => None
+  end.
+
+Lemma ex_oracle_ok :
+  (forall f, ex_good f -> f <> FCopied) /\
+  (forall f text rest, ex_good f -> encode_fheader f = Ok text -> follows_ok rest ->
+     ex_git_header (text ++ rest) = Some (f, rest)) /\
+  (forall input h rest, decode_hunk input = Ok (h, rest) ->
+     ex_git_hunk input = Some ((hline h, hlines h), rest)).
+Proof.
+  split; [|split].
+  - intros f ->. discriminate.
+  - intros f text rest -> E _. unfold ex_git_header. rewrite E, strip_prefix_app. reflexivity.
+  - intros input h rest E. unfold ex_git_hunk. rewrite E. reflexivity.
+Qed.
+
+Lemma ex_diff_roundtrip :
+  exists text,
+    encode_diff (map model_file [(ex_fheader, [(ex_header, ex_lines)])]) = Ok text /\
+    git_decode ex_git_header ex_git_hunk text =
+    Some [(ex_fheader, [(encode_header ex_header, ex_lines)])].
+Proof.
+  destruct ex_oracle_ok as (H1 & H2 & H3).
+  apply (diff_roundtrip_partial ex_good ex_git_header ex_git_hunk H1 H2 H3
+           [(ex_fheader, [(ex_header, ex_lines)])]).
+  constructor; [|constructor]. split; [reflexivity|].
+  constructor; [exact ex_hunk_wf | constructor].
+Qed.
